@@ -288,6 +288,13 @@ func (fr *Frame) loopFrame(st *State, ms *modSet, key, phase string, n ast.Node)
 		if fr.modsInfo[k] == "all" {
 			continue
 		}
+		if strings.HasPrefix(k, "chan.") {
+			for _, m := range fr.contract.Modifies {
+				if strings.TrimSpace(m) == "chan" {
+					continue
+				}
+			}
+		}
 		q := "r$q" + fmt.Sprint(x.nextQ())
 		f := fmt.Sprintf("(forall ((%s Int)) (! (=> (and (<= 0 %s) (< %s %s)) (= (select %s %s) (select %s %s))) :pattern ((select %s %s))))", q, q, q, x.next0, x.getHeap(st, k), q, x.heapInit(k), q, x.getHeap(st, k), q)
 		if phase == "assume" {
@@ -301,6 +308,11 @@ func (fr *Frame) loopFrame(st *State, ms *modSet, key, phase string, n ast.Node)
 func (fr *Frame) loopEnv(st *State, i string) *SpecEnv {
 	env := fr.specEnv(st)
 	env.loopI = i
+	if len(fr.loops) > 0 && fr.loops[len(fr.loops)-1].entry != nil {
+		en := fr.specEnv(fr.loops[len(fr.loops)-1].entry)
+		en.loopI = i
+		env.entry = en
+	}
 	return env
 }
 
@@ -326,6 +338,28 @@ func (fr *Frame) loopInvariants(st *State, ls *LoopSpec, key string, i string, p
 		} else {
 			x.u.oblige("loop["+key+"]:inv:"+lab+":"+phase, "inv", inv.Src, fr.pos(n.Pos()), st.pc, t)
 		}
+	}
+}
+
+// iterEnsures checks the per-iteration post-conditions at the back edge.
+func (fr *Frame) iterEnsures(back, head *State, ls *LoopSpec, key, i string, n ast.Node) {
+	if ls == nil {
+		return
+	}
+	for k, c := range ls.IterEnsures {
+		lab := c.Label
+		if lab == "" {
+			lab = fmt.Sprint(k + 1)
+		}
+		env := fr.loopEnv(back, i)
+		env.head = fr.loopEnv(head, i)
+		env.old = head // in a per-iteration clause old() is the state at the head of this iteration
+		t, err := fr.evalClause(env, c)
+		if err != nil {
+			fr.x.u.oblige("loop["+key+"]:iter:"+lab, "contract-stale", c.Src, fr.pos(n.Pos()), back.pc, "false").Clause = "contract-stale: " + err.Error()
+			continue
+		}
+		fr.x.u.oblige("loop["+key+"]:iter:"+lab, "iter-ensures", c.Src, fr.pos(n.Pos()), back.pc, t)
 	}
 }
 
@@ -357,7 +391,7 @@ func (fr *Frame) forStmt(st *State, n *ast.ForStmt, label string) flow {
 	// ghost iteration counter
 	iv := x.u.fresh("$i", "Int")
 	x.u.fact("(= " + iv + " 0)")
-	fr.loops = append(fr.loops, &loopCtx{i: iv})
+	fr.loops = append(fr.loops, &loopCtx{i: iv, entry: st.clone()})
 	defer func() { fr.loops = fr.loops[:len(fr.loops)-1] }()
 	fr.loopInvariants(st, ls, key, iv, "entry", n)
 	ms := fr.collectMods([]ast.Node{n.Body, n.Post, n.Cond}, nil)
@@ -372,6 +406,7 @@ func (fr *Frame) forStmt(st *State, n *ast.ForStmt, label string) flow {
 	x.u.gfact(head.pc, "(>= "+ih+" 0)")
 	fr.loops[len(fr.loops)-1].i = ih
 	fr.loopInvariants(head, ls, key, ih, "assume", n)
+	headSnap := head.clone()
 	var variant0 string
 	if ls != nil && ls.Decreases != nil {
 		env := fr.loopEnv(head, ih)
@@ -417,6 +452,7 @@ func (fr *Frame) forStmt(st *State, n *ast.ForStmt, label string) flow {
 			i2 := x.bind(Val{T: "(+ " + ih + " 1)", S: "Int"}, "$i").T
 			fr.loopInvariants(back, ls, key, i2, "preserved", n)
 			fr.loopFrame(back, ms, key, "preserved", n)
+			fr.iterEnsures(back, headSnap, ls, key, ih, n)
 			if variant0 != "" {
 				env := fr.loopEnv(back, i2)
 				v := env.Eval(ls.Decreases.Expr)
@@ -459,7 +495,7 @@ func (fr *Frame) rangeStmt(st *State, n *ast.RangeStmt, label string) flow {
 	coll = x.bind(coll, "rng")
 	iv := x.u.fresh("$i", "Int")
 	x.u.fact("(= " + iv + " 0)")
-	fr.loops = append(fr.loops, &loopCtx{i: iv})
+	fr.loops = append(fr.loops, &loopCtx{i: iv, entry: st.clone()})
 	defer func() { fr.loops = fr.loops[:len(fr.loops)-1] }()
 	var visited0 string
 	if isMapR {
@@ -542,6 +578,7 @@ func (fr *Frame) rangeStmt(st *State, n *ast.RangeStmt, label string) flow {
 			bodySt.vars[valObj] = v
 		}
 	}
+	bodySt0 := bodySt.clone()
 	f := fr.block(bodySt, n.Body.List)
 	out.rets = append(out.rets, f.rets...)
 	ends := []*State{f.next}
@@ -565,6 +602,7 @@ func (fr *Frame) rangeStmt(st *State, n *ast.RangeStmt, label string) flow {
 		i2 := x.bind(Val{T: "(+ " + ih + " 1)", S: "Int"}, "$i").T
 		fr.loopInvariants(back, ls, key, i2, "preserved", n)
 		fr.loopFrame(back, ms, key, "preserved", n)
+		fr.iterEnsures(back, bodySt0, ls, key, ih, n)
 	}
 	out.next = x.merge(exits)
 	if out.next != nil {
@@ -594,6 +632,10 @@ func (fr *Frame) atHooks(st *State, s ast.Stmt) {
 	case *ast.AssignStmt:
 		key = fr.src(n)
 	case *ast.ReturnStmt:
+		key = fr.src(n)
+	case *ast.SendStmt:
+		key = fr.src(n)
+	case *ast.IncDecStmt:
 		key = fr.src(n)
 	default:
 		return
